@@ -172,6 +172,9 @@ class Gen:
         d = self.draw
         if chance(d, p_bad):
             return len(f.vars) + d(st.integers(0, 2))
+        fv = getattr(self, "focus_v", None)
+        if fv is not None and (fv == -1 or fv < len(f.vars)) and chance(d, 55):
+            return fv            # one attribute list collects most operations (long lists, many ids, shared buckets)
         if not f.vars or chance(d, 40):
             return -1
         return d(st.integers(0, len(f.vars) - 1))
@@ -182,7 +185,9 @@ class Gen:
         lists = [(v, l) for v, l in lists if l]
         if not lists:
             return None
-        v, l = pick(self.draw, lists)
+        fv = getattr(self, "focus_v", None)
+        foc = [(v, l) for v, l in lists if v == fv]
+        v, l = foc[0] if (foc and chance(self.draw, 60)) else pick(self.draw, lists)
         return v, pick(self.draw, l)
 
     # -- attribute payload
@@ -362,10 +367,12 @@ def case_strategy(draw, tier="quick"):
     fmts = [fmt, draw(st.sampled_from([1, 2, 5])) if (two and chance(draw, 45)) else fmt][:2 if two else 1]
     m = S.Model(fmt, hs, fmts)
     g = Gen(draw, m, pool, fmt)
+    g.focus_v = draw(st.sampled_from([None, -1, -1, 0]))
     nops = draw(st.integers(6, 36 if not big else 60))
     prelude = ["def_dim", "def_dim", "def_var", "def_var", "put_att", "put_att", "put_att"]
     ops = []
     pend = [0, 0]
+    after_rename = None
     for i in range(nops):
         fi = 1 if (two and chance(draw, 22)) else 0
         f = m.files[fi]
@@ -386,7 +393,21 @@ def case_strategy(draw, tier="quick"):
                 kind = pick(draw, ["get_att", "lookup", "reopen", "reopen"])
         elif not f.indef and kind in ("def_dim", "def_var", "del_att") and chance(draw, 80):
             kind = pick(draw, DATA_OK)
-        op = g.op(kind, fi)
+        op = None
+        if after_rename is not None and chance(draw, 50):
+            # follow a successful rename_att by deleting ANOTHER attribute of the same list (ids above the deleted one shift
+            # down while the renamed entry sits at the end of its bucket), preferably one between the renamed and the last
+            rf, rv, rname = after_rename
+            lst = m.files[rf].attlist(rv)
+            if lst is not None and m.files[rf].indef and not m.files[rf].ro and len(lst) >= 3:
+                ri = m.files[rf].find_att(lst, rname)
+                mid = [a for j, a in enumerate(lst) if ri >= 0 and ri < j < len(lst) - 1]
+                oth = [a for a in lst if a.name != rname]
+                a = pick(draw, mid) if mid and chance(draw, 70) else pick(draw, oth)
+                op, fi = {"op": "del_att", "f": rf, "v": rv, "name": g.spelling(a.name).hex()}, rf
+        after_rename = None
+        if op is None:
+            op = g.op(kind, fi)
         if op is None:
             continue
         tf = m.files[op.get("f2", op["f"])]
@@ -401,6 +422,8 @@ def case_strategy(draw, tier="quick"):
             elif pend[0] == 2 and op["op"] == "reopen":
                 pend[0] = 0
             m.apply(op)
+            if op["op"] == "rename_att":
+                after_rename = (op["f"], op["v"], nfc(hexb(op["new"])))
         ops.append(op)
     return {"fmt": fmt, "fmts": fmts, "k": k, "two": two, "hs": hs, "ops": ops}
 
